@@ -978,6 +978,11 @@ UUcWaitCall(w, tag, u) ==
   /\ \E t \in D : At(w, t, "user") /\ th[t].tag = tag /\ th' = SetPc(t, P("uw0", u, 0, 0))
   /\ UNCHANGED <<cur, got, cb, runq, ledger, tg, bad, sv>>
 \* in the callback (context saved): publish the waiter in the slot
+\* what the slot holds when the callback is entered (the waiter's context has been saved by then): nothing yet --
+\* a waiter that wrote itself into the slot before its context was saved would show here
+UcCbLd(w, u, d) ==
+  /\ cb[w].k = "block" /\ cb[w].kd = 10 /\ cb[w].s = 0 /\ cb[w].x = u /\ d = ob.uc[u]
+  /\ UNCHANGED <<cur, got, cb, runq, th, ledger, tg, bad, sv>>
 UcPub(w, u, d) ==
   /\ cb[w].k = "block" /\ cb[w].kd = 10 /\ cb[w].s = 0 /\ cb[w].t = d /\ cb[w].x = u /\ th[d].saved /\ ob.uc[u] = 0
   /\ ob' = ObSet("uc", u, d)
